@@ -29,7 +29,7 @@ def lemma_divmod_range(s: int, n: int, p: int):
         lemma_mul_mono(s // n, -1, n)
 
 
-@contract("mchap.assemble.mutation.base_step", props=["C15x"], opt_result={"1": "cache"})
+@contract("mchap.assemble.mutation.base_step", trusted=True, props=["C15x"], opt_result={"1": "cache"})
 def base_step(genotype: A[i1, 2], reads: A[f8, 3], llk: float, h: int, j: int, n_alleles: int, log_unique_haplotypes: float, inbreeding: float, temp: float, read_counts: Opt[A[i8, 1]], cache: Opt[ArrayMap]) -> Tup[float, Opt[ArrayMap]]:
     requires(0 <= h, h < len(genotype), 0 <= j, j < genotype.shape[1])
     modifies(genotype)
